@@ -168,6 +168,20 @@ def run(ctx):
         ctx.ob('C09-D4', name, what, 'called', bool(th), nontrivial=False)
         if th and okr:
             oblig.must_pass_through(ctx, 'C09-D4', f2, lambda bi, b, _o=set(okr): bi in _o, lambda bi, b, _t=th: bi in _t, 'return Ok(())', what)
+    # chunks that follow the primary RIFF chunk (OpenDML: further `RIFF` chunks with form type AVIX): the copy loop must treat an id equal to
+    # the RIFF id -- the very constant the top-level check compares with -- as a chunk to copy, i.e. the header id is compared with it
+    wn = '<asset_handlers::riff_io::RiffIO as asset_io::CAIWriter>::write_cai'
+    if prog.has(wn):
+        f2 = prog.fn(wn)
+        nes = [(bi, T.call_term(f2, bi)) for bi, t in f2.calls() if re.search(r'PartialEq::(ne|eq)$', t['fd'])]
+        top = [tt for bi, tt in nes if 'Chunk::id(Chunk::read(' in tt]
+        rid = None
+        if top:
+            m = re.search(r',([^,]+)\)$', top[0])
+            rid = m.group(1) if m else None
+        hdr = [tt for bi, tt in nes if 'Chunk::id(' not in tt and rid and tt.endswith(',%s)' % rid) and 'ChunkId(' in tt]
+        ctx.ob('C09-D4', wn, 'chunks after the primary RIFF chunk', 'a header id equal to the RIFF id (the constant of the top-level check) is recognised and copied', bool(rid) and bool(hdr),
+               detail='top-level id constant %s; header comparisons with it: %d' % (rid, len(hdr)))
     # inject_c2pa copies every child it does not replace: each recursion result is pushed
     inj = 'asset_handlers::riff_io::inject_c2pa'
     if ctx.require(prog.has(inj), inj):
